@@ -71,9 +71,32 @@ def run_check(tier, seed):
     if not ok:
         broken.append({'kind': 'harness-build', 'log': out[-3000:]})
         return finish(ev, PROP, findings, broken)
-    n = 500 if tier == 'quick' else 8000
+    n = 350 if tier == 'quick' else 8000
     rng = random.Random(seed)
     cases = [c for c in S.gen_cases(rng, n, frac_malformed=0.0, cap=1 << 17, remap=(0, 0)) if c['wf'] and c['wf']['op'] != 26]
+    # directory sweep: every requested size within 8 bytes of every entry boundary (padded and unpadded), plain and plus
+    sweep = []
+    for op in (28, 44):
+        plus = 128 if op == 44 else 0
+        q0 = S.gen_wf(rng, op)
+        names = [bytes(rng.randrange(1, 256) for _ in range(l)) for l in (rng.randrange(1, 8), rng.randrange(9, 16), rng.choice([8, 16]), rng.randrange(17, 24))]
+        ds = [(S.boundary(rng, 8), S.boundary(rng, 8), rng.randrange(0, 16), nm, S.gen_entry(rng)) for nm in names]
+        tot = 0
+        for k in range(len(ds)):
+            unp = plus + 24 + len(ds[k][3])
+            for base in (tot, tot + unp):
+                for delta in range(-8, 9):
+                    if base + delta < 0: continue
+                    q = dict(q0); q['fields'] = dict(q0['fields']); q['fields']['size'] = base + delta
+                    body = S.enc_struct('fuse_read_in', q['fields'])
+                    h = q['hdr']
+                    q['bytes'] = S.in_header(40 + len(body), op, h['unique'], h['nodeid'], h['uid'], h['gid'], h['pid']) + body
+                    q['fs'] = ('dirents', ds)
+                    sweep.append(S.make_case(rng, 0, q['bytes'], q['fs'], q, transport=rng.choice(['fusedev', 'virtio']), cap=1 << 17, remap=(0, 0), minor=None, vu=False))
+            tot += plus + ((24 + len(ds[k][3]) + 7) // 8) * 8
+    if tier == 'quick': sweep = sweep[::2] if len(sweep) > 160 else sweep
+    for i, c in enumerate(sweep): c['id'] = 200000 + i
+    cases += sweep
     for c in cases:
         if c['wf']['op'] in (48, 49): c['vu'] = True
     rc, obs, raw = S.run_impl(cases, bindir=bindir)
